@@ -582,7 +582,8 @@ func (e *vfEnv) prepare(op string, c, g, d, r int) *vfCall {
 			k.dur = []time.Duration{-2 * time.Second, -time.Minute, -time.Hour, -24 * time.Hour,
 				math.MinInt64}[e.rng.Intn(5)]
 		} else {
-			k.dur = []time.Duration{15 * time.Minute, time.Hour, 24 * time.Hour, 1000 * time.Hour}[e.rng.Intn(4)]
+			k.dur = []time.Duration{15 * time.Minute, time.Hour, 24 * time.Hour, 1000 * time.Hour,
+				2190000 * time.Hour, math.MaxInt64}[e.rng.Intn(6)]
 		}
 		k.desc += fmt.Sprintf(" reason=%d duration=%v", k.reason, k.dur)
 	}
@@ -703,8 +704,10 @@ func (e *vfEnv) exec(a vfAct) (vfAct, *vfConc) {
 				dur = choices[y%len(choices)]
 			}
 		case a.D >= 50:
+			// incl. bans that end after the year 2262 (the end of the int64
+			// nanosecond range) and the longest duration there is ("for ever")
 			dur = []time.Duration{time.Hour, 24 * time.Hour, 1000 * time.Hour, 2000000 * time.Hour,
-				15 * time.Minute}[e.rng.Intn(5)]
+				15 * time.Minute, 2190000 * time.Hour, math.MaxInt64}[e.rng.Intn(7)]
 		default:
 			if !e.anchored {
 				e.anchored, e.anchorL, e.anchorT = true, e.clock, t0
